@@ -417,6 +417,10 @@ class ModuleVistor(NodeVisitor):
                 # and a root module or package stays where it is.
                 current.report("cannot re-export the enclosing object or a root :"
                                         f'{modname}.{origin_name}', thresh=1)
+            elif isinstance(ob, model.Module) and not isinstance(current, model.Package):
+                # Modules live in packages only.
+                current.report("cannot re-export a module into something that is not a package :"
+                                        f'{modname}.{origin_name}', thresh=1)
             else:
                 if origin_module.all is None or origin_name not in origin_module.all:
                     self.system.msg(
